@@ -131,6 +131,9 @@ def run_history(family, case, rec):
             if type(ea) is not type(eb):
                 rec.fail(clause + "__raises_differ",
                          "object: %r fresh twin: %r" % (ea, eb))
+            else:
+                rec.label("both_raise:%s/%s:%s" % (family.name, name,
+                                                   type(ea).__name__))
             continue
         if not same(a, b, tol):
             rec.fail(clause, "object=%s fresh=%s maxdiff=%s" % (
@@ -249,6 +252,13 @@ def _net_queries(interacting):
                    "internal_betweenness"):
             q[nm] = (lambda nm: lambda o, m: getattr(o, nm)(grp(m)[0]))(nm)
         q["cross_degree(la)"] = lambda o, m: o.cross_degree(*grp(m), "la")
+        # InteractingNetworks re-defines global_efficiency with node lists
+        # (and thereby breaks the inherited local_vulnerability, which is
+        # outside C01: dropped here)
+        q["global_efficiency"] = lambda o, m: o.global_efficiency(*grp(m))
+        q["global_efficiency(la)"] = \
+            lambda o, m: o.global_efficiency(*grp(m), "la")
+        q.pop("local_vulnerability", None)
         q["cross_link_attribute(la)"] = \
             lambda o, m: o.cross_link_attribute("la", *grp(m))
         q["internal_link_attribute(la)"] = \
@@ -508,7 +518,8 @@ class CoupledClimateFamily(ClimateFamily):
     def __init__(self):
         ClimateFamily.__init__(self)
         for k in ("area_weighted_connectivity", "average_link_distance",
-                  "nsi_betweenness", "matching_index", "coreness"):
+                  "nsi_betweenness", "matching_index", "coreness",
+                  "local_correlation_distance_weighted_vulnerability"):
             self.queries.pop(k, None)
         for n in ("adjacency_1", "adjacency_2", "cross_layer_adjacency",
                   "number_cross_layer_links", "number_internal_links",
